@@ -2669,6 +2669,135 @@ def _search_structured(ctx, rng, big):
                     _check_rotation_clauses(ctx, ec, R, R2, _rand_strain(rng), info, f'{label}, {lab}')
 
 
+# ---- named constants a hair off a coincidence -------------------------------------------------------------
+# A relation between named constants that a HIGHER system forces (C33 = C11, C13 = C12, C44 = C66, 2 C66 = C11 - C12,
+# C12 = C44, C16 = 0 ...) may hold exactly by chance (family 'named-tie') - or ALMOST: measured / fitted constants sit
+# a relative 1e-9 .. 1e-3 off it, on either side.  Such a set is a perfectly ordinary member of its own system; a
+# "this looks like the higher system / this constant is redundant" shortcut with a tolerance shows only here.
+NEAR_TIE_DELTAS = [1e-9, 1e-8, 1e-7, 1e-6, 1e-5, 7e-5, 1e-4, 5e-4, 1e-3]
+
+
+def _key_sort(k):
+    return 'd' if k[1] == k[2] and k[1] in '123' else 's' if k[1] == k[2] else 'o' if k[2] in '123' else 'c'
+
+
+def _tie_relations(keys):
+    """[(label, target constant, function of the constants -> the value at which the relation holds exactly)]"""
+    rel = []
+    for a in keys:
+        for b in keys:
+            if a < b and _key_sort(a) == _key_sort(b) and _key_sort(a) != 'c':
+                rel.append((f'{b} = {a}', b, (lambda v, a=a: v[a])))
+    for k in keys:
+        if _key_sort(k) == 's' and 'C11' in keys and 'C12' in keys:
+            rel.append((f'2 {k} = C11 - C12', k, lambda v: (v['C11'] - v['C12']) / 2))
+        if _key_sort(k) == 's':
+            for o in keys:
+                if _key_sort(o) == 'o':
+                    rel.append((f'{k} = {o}', k, (lambda v, o=o: v[o])))      # Cauchy relations
+        if _key_sort(k) == 'c':
+            rel.append((f'{k} = 0', k, lambda v: 0.0))
+    return rel
+
+
+def _ctor_keysets(kind, v):
+    """every keyword set through which the CONSTRUCTOR takes the constants `v` of `kind` (values completed where a
+    set names a constant that follows from the others): [(keywords, the constants of the tensor they describe)]"""
+    base = kind.rstrip('6')
+    if base in ('hexagonal', 'rhombohedral'):
+        full = dict(v)
+        full['C66'] = (v['C11'] - v['C12']) / 2
+        rest = {k: x for k, x in full.items() if k not in ('C11', 'C12', 'C66')}
+        out = []
+        for pair in (('C11', 'C12'), ('C11', 'C66'), ('C12', 'C66')):
+            out.append(({**rest, **{k: full[k] for k in pair}}, v))
+        if base == 'rhombohedral' and 'C15' in v:
+            out.append((dict(full), v))                              # 8 keywords: all of C11, C12, C66
+        return out
+    if kind == 'tetragonal':
+        v6 = {k: x for k, x in v.items() if k != 'C16'}              # (another tensor: the one without C16)
+        return [(dict(v), v), (v6, v6)]
+    return [(dict(v), v)]
+
+
+def _near_tie_pool(rng, full):
+    """[(label, kind, constants)]: every relation of _tie_relations on the named constants of every system, the target
+    constant moved to (1 +- delta) times its tie value (for `= 0`: +- delta C11), delta over NEAR_TIE_DELTAS; also
+    starting from the set in which all constants of a sort coincide (a second relation then sits a hair off as well)."""
+    out = []
+    for kind in STRUCT_KINDS:
+        if kind in ('isotropic', 'triclinic'):
+            continue
+        base = kind.rstrip('6')
+        for start in ('generic', 'all-equal'):
+            v = _struct_consts(rng, kind, dy=False)
+            if base in ('hexagonal', 'rhombohedral'):
+                v['C12'] = min(v['C12'], v['C11'] - 4.0)
+            if start == 'all-equal':
+                v = _named_ties(rng, kind, v)[-3 if base in ('hexagonal', 'rhombohedral') else -2][1]
+            rels = _tie_relations(list(v))
+            for n, (lab, tgt, f) in enumerate(rels):
+                deltas = NEAR_TIE_DELTAS if (full or '2 C' in lab) else [NEAR_TIE_DELTAS[(n + j) % len(NEAR_TIE_DELTAS)] for j in (0, 4, 6)]
+                for j, dl in enumerate(deltas):
+                    for sg in ((1, -1) if (full or '2 C' in lab) else ((1,) if (n + j) % 2 else (-1,))):
+                        w = dict(v)
+                        x = f(w)
+                        if not x and dl < 1e-7:
+                            continue        # (the documented clean-up of entries <= 1e-9 of the largest one)
+                        w[tgt] = x * (1 + sg * dl) if x else sg * dl * w['C11']
+                        if w[tgt] == x or not _is_spd(_template(base, w)):
+                            continue
+                        out.append((f'{kind} constants ({start}) with {lab} off by {sg * dl:+.0e}', kind, w))
+    return out
+
+
+def _search_near_ties(ctx, seed):
+    """clause "named constants are placed as given", exactly: through the constructor, with every admissible keyword
+    set in shuffled order, every GIVEN constant Cab is the entry [a-1, b-1] and [b-1, a-1] bit for bit, every entry the
+    system forces follows from the given ones (own template, 4 ulp), every other entry is exactly zero."""
+    np = _np()
+    import atomman as am
+    EC = am.ElasticConstants
+    rng = random.Random(seed * 7103 + 29)        # own stream: the other families draw what they drew before
+    pool = _near_tie_pool(rng, ctx.thorough)
+    ctx.extra['near_tie_pool'] = len(pool)
+    nkey = {}
+    for n, (label, kind, w) in enumerate(pool):
+        base = kind.rstrip('6')
+        if nkey.get(base, 0) >= 3:
+            continue                             # three inputs per system are enough of a report
+        nv = len(ctx.violations)
+        for kw, tv in _ctor_keysets(kind, w):
+            want = _template(base, tv)
+            mx = float(np.abs(want).max())
+            kw = _shuffled(rng, kw)
+            info = {'kwargs': kw, 'system': base}
+            ctx.stats.case('oracle:near-tie', (label, tuple(sorted(kw.items()))),
+                           sample={'op': 'named', 'what': label, **info})
+            ec, e = _call(lambda: EC(**kw))
+            if e is not None:
+                ctx.violate('ctor:raises', f'{label}: ElasticConstants({", ".join(kw)}=...) raised {e}', {'op': 'named', **info})
+                continue
+            c = ec.Cij
+            wrong = [f'{k}: given {x!r}, Cij[{int(k[1]) - 1},{int(k[2]) - 1}] = {c[int(k[1]) - 1, int(k[2]) - 1]!r}'
+                     for k, x in kw.items() if c[int(k[1]) - 1, int(k[2]) - 1] != x or c[int(k[2]) - 1, int(k[1]) - 1] != x]
+            if wrong:
+                ctx.violate(f'named:{base}', f'{label}: the constants are not stored as given at their Voigt positions ('
+                            + '; '.join(wrong[:3]) + f'), keywords {sorted(kw)}', {'op': 'named', **info})
+                continue
+            off = np.abs(c - want) > np.where(want == 0, 0.0, 8 * np.finfo(float).eps * mx)
+            if off.any():
+                a, b = [int(t) for t in np.argwhere(off)[0]]
+                ctx.violate(f'named:template:{base}', f'{label}: Cij[{a},{b}] = {c[a, b]!r}, the {base} form of the given '
+                            f'constants has {want[a, b]!r} there (keywords {sorted(kw)})', {'op': 'named', **info})
+                continue
+            if n % 8 == 0:
+                _check_tensor_clauses(ctx, ec, {'kwargs': kw}, label)
+                _check_moduli(ctx, ec, {'kwargs': kw}, label)
+        if len(ctx.violations) > nv:
+            nkey[base] = nkey.get(base, 0) + 1
+
+
 # ---- one object, many reads: order independence, purity, no aliasing, setters overwrite -------------------
 READ_NAMES = ['Cij', 'Sij', 'Cij9', 'Cijkl', 'Sijkl', 'bulk', 'shear', 'normalized_as', 'is_normal', 'transform', 'str',
               'model']
@@ -2992,6 +3121,7 @@ def search(ctx, broken):
     _search_objects(ctx, rng, big)
     _search_audit(ctx, rng, big)
     _search_structured(ctx, rng, big)
+    _search_near_ties(ctx, ctx.seed)
 
 
 def _search_scales(ctx, rng, big):
